@@ -546,21 +546,23 @@ def BHJM_magnet_trimesh(
         prev_ind = 0
         # group similar meshes for inside-outside evaluation and adding B
         for new_ind, _ in enumerate(BHJM):
+            group_ends = []
             if (
-                new_ind == len(BHJM) - 1
-                or mesh[new_ind].shape != mesh[prev_ind].shape
+                mesh[new_ind].shape != mesh[prev_ind].shape
                 or not np.all(mesh[new_ind] == mesh[prev_ind])
             ):
-                if new_ind == len(BHJM) - 1:
-                    new_ind = len(BHJM)
+                group_ends.append(new_ind)  # row new_ind starts a new group
+            if new_ind == len(BHJM) - 1:
+                group_ends.append(len(BHJM))  # the last group is closed separately
+            for end_ind in group_ends:
                 mask_inside = mask_inside_trimesh(
-                    observers[prev_ind:new_ind], mesh[prev_ind]
+                    observers[prev_ind:end_ind], mesh[prev_ind]
                 )
                 # if inside magnet add polarization vector
-                BHJM[prev_ind:new_ind][mask_inside] += polarization[prev_ind:new_ind][
+                BHJM[prev_ind:end_ind][mask_inside] += polarization[prev_ind:end_ind][
                     mask_inside
                 ]
-                prev_ind = new_ind
+                prev_ind = end_ind
     elif in_out == "inside":
         BHJM += polarization
 
